@@ -1,5 +1,8 @@
+mod conv;
 mod golden;
 mod ledger;
+mod price;
+mod report;
 mod runner;
 mod trace;
 
@@ -19,6 +22,10 @@ fn main() {
     match mode.as_str() {
         "golden" => runner::run_records(&opts, move |i, r| golden::replay(i, r, &workdir)),
         "ledger" => runner::run_records(&opts, ledger::replay),
+        "ledger-alias" => { let w = workdir.clone(); runner::run_records(&opts, move |i, r| ledger::replay_alias(i, r, &w)) }
+        "conv" => { let w = workdir.clone(); runner::run_records(&opts, move |i, r| conv::replay(i, r, &w)) }
+        "price" => { let w = workdir.clone(); runner::run_records(&opts, move |i, r| price::replay(i, r, &w)) }
+        "report" => { let w = workdir.clone(); runner::run_records(&opts, move |i, r| report::replay(i, r, &w)) }
         _ => {
             eprintln!("unknown mode {}", mode);
             std::process::exit(2);
